@@ -544,19 +544,12 @@ func c15Result(r *vexp.Runner, vs []c15Viol, outcome string, nontrivial bool, in
 // ---------------------------------------------------------------------------------------------
 // (A) datagram construction
 
-func c15DecodeBody(r *vexp.Runner, x *vexp.X, menu []c15TLV, first, hm, maxTLV int) vexp.Result {
+func c15DecodeBody(r *vexp.Runner, x *vexp.X, menu []c15TLV, first, hm, ntlv int) vexp.Result {
 	var seq [8]int
-	ntlv := 0
-	if first >= 0 {
+	if ntlv > 0 {
 		seq[0] = first
-		ntlv = 1
-		for ntlv < maxTLV {
-			c := x.Choose(len(menu) + 1)
-			if c == 0 {
-				break
-			}
-			seq[ntlv] = c - 1
-			ntlv++
+		for i := 1; i < ntlv; i++ {
+			seq[i] = x.Choose(len(menu))
 		}
 	}
 	magic := packetMAGIC
@@ -947,15 +940,18 @@ func TestVerifC15(t *testing.T) {
 	for hm := range c15Hmodes {
 		hm := hm
 		r.DFS(fmt.Sprintf("A/%s/no-tlv", c15Hmodes[hm]), -1, func(x *vexp.X) vexp.Result {
-			return c15DecodeBody(r, x, menu, -1, hm, maxTLV)
+			return c15DecodeBody(r, x, menu, -1, hm, 0)
 		})
 	}
-	for first := range menu {
-		for hm := range c15Hmodes {
-			first, hm := first, hm
-			r.DFS(fmt.Sprintf("A/%s/first=%s", c15Hmodes[hm], menu[first].name), -1, func(x *vexp.X) vexp.Result {
-				return c15DecodeBody(r, x, menu, first, hm, maxTLV)
-			})
+	// shortest TLV sequences first, so that the first counterexamples recorded are the short ones
+	for ntlv := 1; ntlv <= maxTLV; ntlv++ {
+		for first := range menu {
+			for hm := range c15Hmodes {
+				ntlv, first, hm := ntlv, first, hm
+				r.DFS(fmt.Sprintf("A/%s/%dtlv/first=%s", c15Hmodes[hm], ntlv, menu[first].name), -1, func(x *vexp.X) vexp.Result {
+					return c15DecodeBody(r, x, menu, first, hm, ntlv)
+				})
+			}
 		}
 	}
 	for which := 0; which < 2; which++ {
